@@ -59,7 +59,7 @@ Spec == Init /\ [][Next]_<<bucket, inst>>
 \* the tuples of argument alternatives that start with `first`
 \* from the third argument on a reduced pool keeps the product small:
 \* null 0 1 -1 1.5 "a" "ab" [1,2] "e-acute" (+ the rest when Small is larger) and one reference
-SmallIdx == <<1, 3, 4, 5, 7, 9, 10, 13, 21, 2, 6, 8, 11, 12, 14, 15, 16, 17, 18, 19, 20>>
+SmallIdx == <<1, 3, 4, 5, 7, 9, 10, 13, 21, 2, 6, 8, 11, 12, 14, 15, 16, 17, 18, 19, 20, 22, 23>>
 SmallSet == { SmallIdx[i] : i \in 1..Small } \cup {NV + 1}
 RestPool(pos) == IF pos <= 2 THEN 1..NA ELSE SmallSet
 Tuples(n, first) ==
